@@ -36,12 +36,13 @@ def r1(c):
                  '%s is dominated by destination != Broadcast and unreachable from the Broadcast edge' % cs.callee, '', cs.loc())
     c.floor('wire-side calls in reply_with_error_generic', n, 2)
     # reply_with_error delegates (no wire access of its own)
-    r = P.fn(REPLY_ERR)
-    c.saw(r, len(r.calls()))
-    direct = [cs for cs in r.calls() if cs.is_(WIRE_WRITE, FORMAT_EX)]
-    dele = r.calls(REPLY_ERR_G)
-    okh = len(dele) == 1 and q.is_name(r, dele[0].args[2], 'header')
-    c.ob('reply_with_error/delegates', not direct and okh, 'reply_with_error only delegates to reply_with_error_generic with its own header', 'direct wire calls %d, delegations %d' % (len(direct), len(dele)), loc_of(r))
+    if P.has(REPLY_ERR):        # (the one-line wrapper may have been merged into its callers)
+        r = P.fn(REPLY_ERR)
+        c.saw(r, len(r.calls()))
+        direct = [cs for cs in r.calls() if cs.is_(WIRE_WRITE, FORMAT_EX)]
+        dele = r.calls(REPLY_ERR_G)
+        okh = len(dele) == 1 and q.is_name(r, dele[0].args[2], 'header')
+        c.ob('reply_with_error/delegates', not direct and okh, 'reply_with_error only delegates to reply_with_error_generic with its own header', 'direct wire calls %d, delegations %d' % (len(direct), len(dele)), loc_of(r))
     # who writes to the wire in the server at all
     writers = sorted({P.logical_name(cs.body) for cs in P.callers(WIRE_WRITE) if 'rodbus::server::' in cs.body.path})
     c.ob('server-writers', writers == sorted([HANDLE_FRAME, REPLY_ERR_G]), 'in the server only handle_frame and reply_with_error_generic write to the wire', str(writers))
@@ -218,6 +219,12 @@ def r5(c):
     u = P.fn('rodbus::types::UnitId::broadcast')
     aggs = [s for _, s in u.aggregates('rodbus::types::UnitId')]
     okz = len(aggs) == 1 and aggs[0]['rv']['a'][0].get('val') == '0'
+    if not aggs:
+        # ... or through the constructor: UnitId::new(0), with new(value) = UnitId { value }
+        nw = u.calls('rodbus::types::UnitId::new')
+        nb_ = P.fn('rodbus::types::UnitId::new')
+        na = [s for _, s in nb_.aggregates('rodbus::types::UnitId')]
+        okz = len(nw) == 1 and q.const_val(u, nw[0].args[0]) == 0 and [x['kind'] for x in q.exits(u)] == ['call'] and len(na) == 1 and q.is_name(nb_, na[0]['rv']['a'][0], 'value')
     c.ob('broadcast-is-zero', okz, 'UnitId::broadcast() is unit id 0', str([a['rv']['a'][0].get('val') for a in aggs]), loc_of(u))
     # MBAP side
     mb = [P.logical_name(b2) for b2, _, _ in P.constructors(FD, None, crate='rodbus') if 'rodbus::tcp::' in b2.path]
